@@ -2,7 +2,10 @@
 use crate::SendMode;
 use crate::frame;
 
+#[cfg(not(feature = "verif"))]
 use std::time;
+#[cfg(feature = "verif")]
+use crate::verif::time;
 
 mod emit;
 mod frame_ack_queue;
@@ -19,6 +22,9 @@ mod send_rate;
 
 #[cfg(test)]
 mod packet_tests;
+
+#[cfg(feature = "verif")]
+pub use send_rate::{SendRateComp, FeedbackData};
 
 const INITIAL_RTT_ESTIMATE_MS: u64 = 150;
 const INITIAL_RTO_ESTIMATE_MS: u64 = 4*INITIAL_RTT_ESTIMATE_MS;
@@ -319,6 +325,8 @@ impl HalfConnection {
         }
 
         while let Some(ack_group) = self.frame_ack_queue.peek() {
+            #[cfg(feature = "verif")]
+            crate::verif::tick();
             match afe.push(ack_group) {
                 Err(_) => return Err(()),
                 Ok(_) => (),
@@ -349,6 +357,8 @@ impl HalfConnection {
         let mut dfe = emit::DataFrameEmitter::new(now_ms, &mut self.frame_queue, flush_alloc_init, emit_cb);
 
         while let Some(entry) = self.resend_queue.peek() {
+            #[cfg(feature = "verif")]
+            crate::verif::tick();
             if let Some(packet_rc) = entry.fragment_ref.packet.upgrade() {
                 let packet_ref = packet_rc.borrow();
 
@@ -383,6 +393,8 @@ impl HalfConnection {
         }
 
         loop {
+            #[cfg(feature = "verif")]
+            crate::verif::tick();
             if self.pending_queue.is_empty() {
                 if let Some((packet_rc, resend)) = self.packet_sender.emit_packet(flush_id) {
                     let pending_packet_ref = packet_rc.borrow();
@@ -399,6 +411,8 @@ impl HalfConnection {
             }
 
             while let Some(entry) = self.pending_queue.front() {
+                #[cfg(feature = "verif")]
+                crate::verif::tick();
                 if let Some(packet_rc) = entry.fragment_ref.packet.upgrade() {
                     let packet_ref = packet_rc.borrow();
 
@@ -429,6 +443,32 @@ impl HalfConnection {
         dfe.finalize();
 
         return Ok(());
+    }
+}
+
+#[cfg(feature = "verif")]
+impl HalfConnection {
+    #[doc(hidden)]
+    pub fn verif_probe(&self) -> crate::verif::Probe {
+        crate::verif::Probe {
+            send_rate: self.send_rate_comp.send_rate(),
+            flush_alloc: self.flush_alloc,
+            pending_len: self.pending_queue.len(),
+            resend_len: self.resend_queue.len(),
+            send_queue_len: self.packet_sender.pending_count(),
+            tx_packet_base: self.packet_sender.base_id(),
+            tx_packet_next: self.packet_sender.next_id(),
+            tx_alloc: self.packet_sender.verif_alloc(),
+            tx_frame_base: self.frame_queue.base_id(),
+            tx_frame_next: self.frame_queue.next_id(),
+            tx_frame_log_len: self.frame_queue.verif_log_len(),
+            rx_packet_base: self.packet_receiver.base_id(),
+            rx_frame_base: self.frame_ack_queue.base_id(),
+            rx_alloc: self.packet_receiver.verif_alloc(),
+            rx_dud_count: self.packet_receiver.verif_dud_count(),
+            ack_queue_len: self.frame_ack_queue.verif_len(),
+            rto_ms: self.send_rate_comp.rto_ms(),
+        }
     }
 }
 
